@@ -512,8 +512,12 @@ class Tally(StatisticsInterface):
         if math.isnan(mean) or math.isnan(self.stdev(False)):
             return (math.nan, math.nan)
         level = 1.0 - alpha / 2.0
-        z = NormalDist(0.0, 1.0).inv_cdf(level)
-        confidence = z * math.sqrt(self.variance(False) / self._n)
+        if level < 1.0:
+            z = NormalDist(0.0, 1.0).inv_cdf(level)
+            confidence = z * math.sqrt(self.variance(False) / self._n)
+        else:
+            # 100% confidence: the interval is only limited by min and max
+            confidence = math.inf
         return (max(self._min, mean - confidence),
                 min(self._max, mean + confidence))
     
